@@ -9,7 +9,7 @@ ASSUME = ['demonic oracle (kani/src/oracle.rs): any correct SatSolver may return
 def run(tier, seed):
     return kani_check.run("C06", ["c06_"], tier, seed, dict(
         functions=FUNCS, bounds="several queries put to ONE solver object (repetition, order, certificate flag) and the same credulous query through the three selectable encodings of the complete solver; the framework is compared before and after; " + BOUNDS, assumptions=ASSUME),
-        jobs=6)
+        jobs=8 if tier == "thorough" else 6)
 
 
 def replay(path):
